@@ -6,3 +6,9 @@ Theorem C08_parse uc ordering txt ts f : tokenize uc ordering txt = Some ts -> (
 Proof. exact (C08_text uc ordering txt ts f). Qed.
 Theorem C08_unique ts f1 f2 : G_formula ts f1 -> G_formula ts f2 -> f1 = f2. Proof. exact (ParserComplete.C08_unique ts f1 f2). Qed.
 Print Assumptions C08_lex. Print Assumptions C08_parse.
+
+(** a sentence and a non-sentence: "a & -b" and the repaired D1 witness "-(a] b" *)
+Example C08_instance :
+  parse (TVar 0 :: TAnd :: TNot :: TVar 1 :: TEof :: nil) = Ok (FBin BAnd (FVar 0) (FNot (FVar 1))) nil /\
+  parse (TNot :: TOpenParen :: TVar 0 :: TCloseSquare :: TVar 1 :: TEof :: nil) = Err.
+Proof. split; vm_compute; reflexivity. Qed.
